@@ -671,4 +671,54 @@ theorem Entry.mem {x : Index} {c f : Str} (h : Entry x c f) : (c, f) ∈ indexEn
         rw [hm] at hq
         exact ⟨n, getNode_mem hg, Or.inr ⟨g, m, sub, assocGet_mem _ _ _ hm, assocGet_mem _ _ _ hq, hf⟩⟩
 
+/-! ### the converse direction, for plain filters: the entry of a plain filter is at the address of the filter -/
+
+/-- the index holds a plain subscription of client `c` at the address of filter `f` -/
+def HasPlain (x : Index) (c f : Str) : Prop := (plainAt x (plainPath f) c).isSome = true
+
+theorem plainPath_eq (f : Str) : plainPath f = splitLevels f :=
+  pathFrom_zero _ (splitLevels_ne_nil f)
+
+theorem plainPath_inj {f f' : Str} (h : plainPath f = plainPath f') : f = f' := by
+  rw [plainPath_eq, plainPath_eq] at h
+  exact splitLevels_inj h
+
+theorem HasPlain.congr {x y : Index} (hp : ∀ q c, plainAt y q c = plainAt x q c) {c f : Str} (h : HasPlain x c f) :
+    HasPlain y c f := by
+  unfold HasPlain; rw [hp]; exact h
+
+theorem HasPlain.subscribe_keep {x : Index} {c' f : Str} (h : HasPlain x c' f) (c : Str) (s : Sub) :
+    HasPlain (subscribe x c s).1 c' f := by
+  unfold HasPlain at h ⊢
+  rw [plainAt_subscribe]
+  split
+  · rfl
+  · exact h
+
+theorem HasPlain.subscribe_self (x : Index) (c : Str) (s : Sub) (hs : shareKey s.filter = false) :
+    HasPlain (subscribe x c s).1 c s.filter := by
+  unfold HasPlain
+  rw [plainAt_subscribe]
+  simp [hs]
+
+theorem HasPlain.unsubscribe_keep {x : Index} (hpc : PrefixClosed x.nodes) {c' f : Str} (h : HasPlain x c' f)
+    (f0 c : Str) (hne : c' ≠ c ∨ f ≠ f0) : HasPlain (unsubscribe x f0 c).1 c' f := by
+  unfold HasPlain at h ⊢
+  rw [plainAt_unsubscribe x hpc]
+  split
+  · rename_i hc
+    rcases hne with hne | hne
+    · exact absurd hc.2.2 hne
+    · exact absurd (plainPath_inj hc.2.1) hne
+  · exact h
+
+/-- the entry found at the address of a plain filter carries that filter -/
+theorem HasPlain.mem {x : Index} (hx : IdxOK x) {c f : Str} (h : HasPlain x c f) : (c, f) ∈ indexEntries x := by
+  unfold HasPlain at h
+  cases hq : plainAt x (plainPath f) c with
+  | none => rw [hq] at h; cases h
+  | some sub =>
+    have := (hx.pos.plain _ c sub hq).2
+    exact Entry.mem (Or.inl ⟨_, sub, hq, plainPath_inj this⟩)
+
 end Mochi.Topics
